@@ -21,6 +21,7 @@ type AtCall struct {
 	Cl     Clause
 	Assume bool // environment assumption (listed in the evidence) instead of an obligation
 	SetVar string // set-at-call: the ghost variable that receives the value of Cl at this point
+	Interfere string // "before" | "after": other threads run at this point (interfere-at-call / interfere-after-call)
 }
 
 type Clause struct {
@@ -78,6 +79,8 @@ type Contract struct {
 	Iter         *IterSpec           // the callee calls a callback over a ghost sequence
 	Gates        []Gate              // extra conditions asserted at every call of a command handler
 	AtCall       []AtCall            // extra obligations at the call sites of a callee inside this function
+	Rely         []Clause            // facts about shared state that hold after any interference by other threads (old() = before it)
+	InterfGhosts []string            // ghost variables other threads may change
 	AfterLock    []Clause            // monitor invariants assumed right after a lock acquisition inside this function (listed as assumptions)
 	HavocRegions []string            // (lock acquisition) regions of shared state other threads may have changed
 	Assumed      bool                // extern (trusted) contract
@@ -762,6 +765,35 @@ func (sp *Specs) loadSpecFile(path, pkgPrefix string, assumed bool) error {
 			}
 			ac.Cl = cl
 			cur.AtCall = append(cur.AtCall, ac)
+		case "interfere-at-call", "interfere-after-call":
+			if cur == nil {
+				return fmt.Errorf("%s:%d: clause outside func", path, l.ln)
+			}
+			ac := AtCall{Callee: strings.TrimSpace(rest), Interfere: "before"}
+			if word == "interfere-after-call" {
+				ac.Interfere = "after"
+			}
+			if i := strings.Index(ac.Callee, "#"); i >= 0 {
+				ac.Ord, _ = strconv.Atoi(ac.Callee[i+1:])
+				ac.Callee = ac.Callee[:i]
+			}
+			cur.AtCall = append(cur.AtCall, ac)
+		case "rely":
+			if cur == nil {
+				return fmt.Errorf("%s:%d: clause outside func", path, l.ln)
+			}
+			cl, err := mkClause(rest, l.ln)
+			if err != nil {
+				return err
+			}
+			cur.Rely = append(cur.Rely, cl)
+		case "interference-ghosts":
+			if cur == nil {
+				return fmt.Errorf("%s:%d: clause outside func", path, l.ln)
+			}
+			for _, g := range strings.Split(rest, ",") {
+				cur.InterfGhosts = append(cur.InterfGhosts, strings.TrimSpace(g))
+			}
 		case "after-lock":
 			if cur == nil {
 				return fmt.Errorf("%s:%d: clause outside func", path, l.ln)
